@@ -422,6 +422,17 @@ def check_fits(case, part):
     for op in hist:
         m = _norm(table(op[0]))
         s = T.to_impl(m)
+        if case.get("epoch_scale") and m.t_ref is not None:
+            # the reference epoch handed over on another time scale than the internal barycentric one
+            from astropy.time import Time as _T
+
+            tr_ = _T(m.t_ref, format="mjd", scale=case["epoch_scale"])
+            s2 = tj.JokerSamples(t_ref=tr_, poly_trend=m.poly_trend, n_offsets=m.n_offsets)
+            for k_ in s.par_names:
+                s2[k_] = s[k_]
+            s = s2
+            m = m.copy()
+            m.t_ref = float(tr_.tcb.mjd)
         try:
             s.write(path, overwrite=op[1])
             ok = True
@@ -552,6 +563,11 @@ def build_batch_cases(quick):
                     if st != "omit":
                         sels.append(["slice", a, b, st])
         sels.append(["slice", None, None, None])
+        # numpy-style negative entries in an index array
+        sels.append(["idx", -1])
+        if N > 1:
+            sels.append(["idx", 0, -2])
+            sels.append(["idx", -N, N - 1, -1])
         sels.append(["slice", None, 2, None])
         sels.append(["slice", 1, None, None])
         for r in (1, 2, 3):
@@ -589,6 +605,7 @@ def main():
     fits = [dict(kind="fits", history=h) for h in
             [[[a, ow]] for a in ("A", "C", "F", "G", "D", "Z", "E") for ow in (False, True)] +
             [[[a, False], [b, ow]] for a in ("A", "F", "G", "Z") for b in ("A", "C", "F", "G", "Z") for ow in (False, True)]]
+    fits += [dict(kind="fits", history=[[a, False]], epoch_scale=sc) for a in ("A", "F") for sc in ("utc", "tdb", "tt")]
     chk.merge(core.parallel(shard, core.interleave(fits, core.NPROC)))
     bc = build_batch_cases(chk.quick)
     chk.bounds["batch_read_cases"] = len(bc)
